@@ -1274,6 +1274,18 @@ func isMetaField(field string) bool {
 	return strings.HasSuffix(field, "_user") || strings.HasSuffix(field, "_time")
 }
 
+// sameJSONValue returns true if two field values are the same JSON value.  The stored value was parsed
+// from its persisted JSON while the new value was parsed from the request, so an integer written as a
+// float (2.0, 1e3) arrives as float64 but is read back as uint64: compare the encodings, not the Go types.
+func sameJSONValue(a, b interface{}) bool {
+	if reflect.DeepEqual(a, b) {
+		return true
+	}
+	aJSON, errA := json.Marshal(a)
+	bJSON, errB := json.Marshal(b)
+	return errA == nil && errB == nil && bytes.Equal(aJSON, bJSON)
+}
+
 // update _user and _time fields for any fields newly set or modified.
 func updateJSON(origData, newData NeuronJSON, user string, conditionals []string, replace bool) {
 
@@ -1339,7 +1351,7 @@ func updateJSON(origData, newData NeuronJSON, user string, conditionals []string
 		}
 	} else {
 		for field, value := range newData {
-			if origValue, found := origData[field]; !found || isMetaField(field) || !reflect.DeepEqual(value, origValue) {
+			if origValue, found := origData[field]; !found || isMetaField(field) || !sameJSONValue(value, origValue) {
 				newlySet[field] = struct{}{}
 			}
 			if !isMetaField(field) {
